@@ -403,4 +403,11 @@ def c17_i(ctx: Ctx):
     return res
 
 
-RULES = [c17_a, c17_b, c17_c, c17_d, c17_e, c17_f, c17_g, c17_h, c17_i]
+@rule("C17-j")
+def c17_j(ctx: Ctx):
+    """signac view: an empty selection still updates the view (it is not a reason to return early)."""
+    from . import cli
+    return cli.selection_discipline(ctx, "C17-j", {"main_view"})
+
+
+RULES = [c17_a, c17_b, c17_c, c17_d, c17_e, c17_f, c17_g, c17_h, c17_i, c17_j]
